@@ -28,6 +28,7 @@ def r4(ctx):
 
 
 RULES = {
+    "C06.RG": lambda ctx: __import__("rules.foundations", fromlist=["x"]).no_global_state(ctx, "C06.RG"),
     "C06.R10": lambda ctx: __import__("rules.decoderrules", fromlist=["x"]).hermes_regular_part(ctx, "C06.R10"),
     # what was validated is what is stored (the arrays the indices were checked against reach the map unshortened), and
     # the mappings are validated at all (kind dispatch cannot route a regular map around decode_regular)
